@@ -823,13 +823,14 @@ def nunique_df_combine(dfs, *args, **kwargs):
     return _nunique_df_combine(concat(dfs), *args, **kwargs)
 
 
-def nunique_df_aggregate(dfs, levels, name, sort=False):
+def nunique_df_aggregate(dfs, levels, name, sort=False, dropna=None):
     df = concat(dfs)
+    g = df.groupby(level=levels, sort=sort, observed=True, **_as_dict("dropna", dropna))
     if df.ndim == 1:
         # split out reduces to a Series
-        return df.groupby(level=levels, sort=sort, observed=True).nunique()
+        return g.nunique()
     else:
-        return df.groupby(level=levels, sort=sort, observed=True)[name].nunique()
+        return g[name].nunique()
 
 
 class NUnique(SingleAggregation):
@@ -851,11 +852,15 @@ class NUnique(SingleAggregation):
 
     @functools.cached_property
     def aggregate_kwargs(self) -> dict:  # type: ignore[override]
-        return {"levels": self.levels, "name": self._slice}
+        return {
+            "levels": self.levels,
+            "name": self._slice,
+            **_as_dict("dropna", self.dropna),
+        }
 
     @functools.cached_property
     def combine_kwargs(self):
-        return {"levels": self.levels}
+        return {"levels": self.levels, **_as_dict("dropna", self.dropna)}
 
 
 class Head(SingleAggregation):
